@@ -12,6 +12,7 @@ Inductive case :=
 | CArch (lim : option (Z * Z)) (s : tstream) (obs : aerr + list file)
 | CJoin (root dest : string) (obs : cj_err + string)
 | CLock (pre : option node) (legacy : bool) (obs : lock_obs) (outside_changed : bool)
+| CDownload (upath : string) (obs : option string)   (* base name of the file DownloadTo wrote; None = refused *)
 | COracleOnly
 | CPanic.
 
@@ -56,6 +57,12 @@ Definition case_ok (c : case) : bool :=
       match write_lock fs0 dir legacy "lock"%string, obs with
       | None, LRefused => true
       | Some fs1, LWritten => node_is_file (fs_get p fs1)
+      | _, _ => false
+      end
+  | CDownload upath obs =>
+      match download_name upath, obs with
+      | Some a, Some b => String.eqb a b
+      | None, None => true
       | _, _ => false
       end
   | COracleOnly => true
